@@ -126,6 +126,7 @@ fn gen_sweep_session(seed: u64, run: u64) -> Session {
         tree: Vec::new(),
         ops,
         crashes: Vec::new(),
+        midload: Vec::new(),
         decisions: None,
         hold: None,
         meta: json!({"sweep": true, "base": base}),
@@ -276,6 +277,7 @@ pub fn gen_session(seed: u64, run: u64, thorough: bool) -> Session {
         tree,
         ops,
         crashes: Vec::new(),
+        midload: Vec::new(),
         decisions: None,
         hold: None,
         meta: json!({}),
